@@ -521,7 +521,14 @@ class StmtMixin:
         if isinstance(iterable, (ListV, TupleV)):
             if not iterable.items:
                 return self.exec_block(node.orelse, frame)
-            iterable = self.seq_from_list(iterable.items, self.elem_type_of(iterable.items[0]))
+            values = [conc_int(item) if isinstance(item, IntV) else None for item in iterable.items]
+            steps = {b - a for a, b in zip(values, values[1:])} if None not in values else set()
+            if None not in values and len(values) >= 2 and len(steps) == 1 and min(steps) > 0:
+                # a literal arithmetic progression such as [0, 1, 2]: element k is start + k * step
+                step = steps.pop()
+                iterable = RangeV(IntV(values[0]), IntV(values[-1] + step), step)
+            else:
+                iterable = self.seq_from_list(iterable.items, self.elem_type_of(iterable.items[0]))
         if isinstance(iterable, GenV):
             raise Unsupported("invariant loop over generator")
         n = self.source_len(iterable)
